@@ -52,6 +52,20 @@ def unique_name(slot, gen):
     return '%s-%010d-s%dg%03dzzzzzzz' % (app, inst, slot, gen)
 
 
+# Owner names of the 'pid' naming scheme: node services (sproc/nodeinfo,
+# tickets, keytabs) own their endpoint specs through <proc>/<pid>, a numeric
+# name of any length.  The table holds names in proper suffix ('234' / '1234'
+# / '51234'), prefix ('12' / '123' / '1234') and infix relations; a later
+# generation of a slot is another process (base + gen * 10**6, so '1000234'
+# again ends with '234').  Names are unique over (slot, generation).
+PID_BASE = (234, 1234, 51234, 12, 123)
+NAMINGS = ('uniq', 'pid')
+
+
+def pid_name(slot, gen):
+    return '%d' % (PID_BASE[slot] + 1000000 * gen)
+
+
 def veth_names(uniq):
     uid = uniq.rsplit('-', 1)[1]
     return ('%13s.0' % uid).replace(' ', '0'), \
@@ -492,6 +506,10 @@ class Engine(object):
             self.count('layout.cases-with-symlinks')
 
         # owners
+        self.naming = self.cfg.get('naming') or 'uniq'
+        if self.naming not in NAMINGS:
+            raise ValueError('unknown naming %r' % (self.naming,))
+        self.count('naming.%s' % self.naming)
         self.gen = [0] * NSLOTS          # current generation of each slot
         self.live = set()                # unique names whose dir exists
         self.seen = set()                # unique names that ever existed
@@ -595,6 +613,13 @@ class Engine(object):
         shutil.rmtree(self.top, ignore_errors=True)
 
     # ------------------------------------------------------------------
+    def uname(self, slot, gen):
+        """Name of the owner directory of (slot, generation) under the
+        case's naming scheme: container unique name or process id."""
+        if self.naming == 'pid':
+            return pid_name(slot, gen)
+        return unique_name(slot, gen)
+
     def owner_of(self, op):
         """Unique name the op acts as: the slot's current generation, or the
         previous one with 'old' (a finishing container of the same slot)."""
@@ -602,7 +627,7 @@ class Engine(object):
         gen = self.gen[slot]
         if op.get('old') and gen > 0 and not op.get('new'):
             gen -= 1
-        return unique_name(slot, gen)
+        return self.uname(slot, gen)
 
     def slot_of(self, op):
         """'new': true -> the op is issued by the container that started
@@ -676,6 +701,11 @@ class Engine(object):
         mgr = op['mgr']
         self.count('ops.%s' % mgr)
         self.count('op.%s.%s' % (mgr, op['op']))
+        if mgr == 'svc' and self.naming != 'uniq':
+            # only containers request network resources (the service derives
+            # the veth names from <app>-<id>-<uniq>); never drawn, no-op
+            self.count('svc.skipped.not-a-container')
+            return
         getattr(self, '_%s_%s' % (mgr, op['op']))(op)
 
     # ---- owners -------------------------------------------------------
@@ -690,7 +720,7 @@ class Engine(object):
         holders.update(self.svc_req)
         slots = []
         for slot in range(NSLOTS):
-            cur = unique_name(slot, self.gen[slot])
+            cur = self.uname(slot, self.gen[slot])
             if want_live and cur in self.live and cur in holders:
                 slots.append(slot)
             elif not want_live and cur not in self.live and \
@@ -703,14 +733,14 @@ class Engine(object):
 
     def _own_up(self, op):
         slot = self._aimed_slot(op, False)
-        cur = unique_name(slot, self.gen[slot])
+        cur = self.uname(slot, self.gen[slot])
         if cur in self.live:
             self.count('own.up.noop')
         else:
             ever = cur in self.seen
             if ever and op.get('fresh', True):
                 self.gen[slot] += 1
-                cur = unique_name(slot, self.gen[slot])
+                cur = self.uname(slot, self.gen[slot])
                 self.count('own.up.new-generation')
             elif ever:
                 self.count('own.up.resurrected')
@@ -722,7 +752,7 @@ class Engine(object):
 
     def _own_down(self, op):
         slot = self._aimed_slot(op, True)
-        cur = unique_name(slot, self.gen[slot])
+        cur = self.uname(slot, self.gen[slot])
         if cur not in self.live:
             self.count('own.down.noop')
         else:
@@ -1270,17 +1300,23 @@ class Engine(object):
                         'extra': 'owner-release-ignored'})
 
     def _ep_unlink_all(self, op):
-        """_finish.py: endpoints.unlink_all(app.name, owner=unique_name)."""
+        """_finish.py: endpoints.unlink_all(app.name, owner=unique_name).
+        'pat': true -> the appname is the glob <app>#* (the form the node
+        services use, sproc/nodeinfo.py: 'root.<host>#*'), which matches the
+        specs of every instance of the app, i.e. of several owners."""
         model = self.model['ep']
         slot, idx = self._ep_select(op)
         owner = self.acting('ep', op, spec_key(slot, idx))
         proto, endpoint = op.get('proto'), op.get('endpoint')
+        pat = bool(op.get('pat'))
         expected = {}
         foreign = False
+        related = False
         for key, holder in model.items():
             kslot, kidx = self.ep_meta[key]
             match = (
-                appname(kslot) == appname(slot) and
+                (SLOTS[kslot][0] == SLOTS[slot][0] if pat
+                 else appname(kslot) == appname(slot)) and
                 (proto is None or SPECS[kidx][0] == proto) and
                 (endpoint is None or SPECS[kidx][1] == endpoint)
             )
@@ -1288,14 +1324,26 @@ class Engine(object):
                 continue
             if match:
                 foreign = True
+                if holder in self.live and holder != owner and (
+                        holder.endswith(owner) or holder.startswith(owner)
+                        or owner.endswith(holder)
+                        or owner.startswith(holder)):
+                    related = True
             expected[key] = holder
         if foreign:
             self.count('ep.unlink_all.foreign-matching')
             self._contended('ep', 'unlink_all')
+        if related:
+            # a live owner whose name contains / is contained in the
+            # releaser's name holds a matching spec
+            self.count('ep.unlink_all.foreign-matching.related-name')
+        if pat:
+            self.count('ep.unlink_all.pattern')
         if len(expected) < len(model):
             self.count('ep.unlink_all.removed')
-        self.eps.unlink_all(appname(slot), proto=proto, endpoint=endpoint,
-                            owner=owner)
+        self.eps.unlink_all(
+            SLOTS[slot][0] + '#*' if pat else appname(slot),
+            proto=proto, endpoint=endpoint, owner=owner)
         self.check_all('ep', 'unlink_all', expected,
                        {'missing': 'nonowner-released',
                         'extra': 'owner-release-ignored'})
@@ -1536,10 +1584,10 @@ class Engine(object):
         if op.get('sel') is not None:
             # aimed: the k-th slot whose container exists
             up = [one for one in range(NSLOTS)
-                  if unique_name(one, self.gen[one]) in self.live]
+                  if self.uname(one, self.gen[one]) in self.live]
             if up:
                 slot = up[op['sel'] % len(up)]
-        owner = unique_name(slot, self.gen[slot])
+        owner = self.uname(slot, self.gen[slot])
         if owner not in self.live:
             self.count('svc.req.skipped-no-container')
             self._unchanged('svc')
